@@ -289,6 +289,7 @@ theorem step_pase_mem (s : St) (op : Op) (sl : Slot) (hp : isPase sl = true) (hm
     all_goals first
       | exact hm
       | (simp only [failTask_table] at hm; exact mem_release hm)
+      | (simpa using hm)
   | rxTimeout x =>
     left
     simp only [step] at hm
@@ -498,6 +499,7 @@ theorem step_winKeep_nonopen (s : St) (op : Op) (hno : isOpenOp op = false) :
     all_goals first
       | exact winKeep_refl _
       | (apply winKeep_fail; exact winKeep_refl _)
+      | (apply winKeep_record; exact winKeep_refl _)
   | rxTimeout x =>
     simp only [step]
     repeat' split
